@@ -1,6 +1,6 @@
 (* Lemmas about Model/ProtocolSession.v (C14): message framing and one protocol session. *)
 From Coq Require Import List NArith Arith Bool Lia ZifyN ZifyNat ZifyBool.
-From DS Require Import Gen.Constants Base.Bytes Base.Hash Base.LE64 Model.HTTPServer Model.ProtocolSession.
+From DS Require Import Gen.Constants Base.Bytes Base.Hash Base.LE64 Model.HTTPServer Model.ProtocolSession Proofs.TransportProofs.
 Import ListNotations.
 Local Open Scope N_scope.
 
@@ -267,5 +267,34 @@ Section ProtocolSessionProofs.
                     (serve_loop_gen true fuel store (client_requests (r ++ m :: post))) Hd Hh Hl) as [c' [Er Hc']].
         rewrite Er, Ers. exists (PData c' :: rs). split; [reflexivity|]. constructor; [exists c'; split; [reflexivity|exact Hc']|exact Hrs]. }
     apply Hgen. rewrite app_length. cbn. lia.
+  Qed.
+  (* ---------- the store behind `desync pull`: a LocalStore in either format ---------- *)
+
+  (* what a LocalStore holds for the ids asked: nothing, or the chunk in the store's own format *)
+  Definition held (s : lstore) (data_of : id -> bytes) (i : id) : Prop :=
+    wf_id i /\
+    (lookup i (ls_files s) = None \/
+     (data_of i <> [] /\ H (data_of i) = i /\ N.of_nat (length (zcomp (data_of i))) + 56 <= MaxInt64 /\
+      lookup i (ls_files s) = Some (to_storage zcomp (opt_converters (ls_uncompressed s)) (data_of i)))).
+
+  Lemma held_servable s data_of i :
+    held s data_of i -> servable (local_get H zdecomp s) data_of i.
+  Proof.
+    intros [Hi [Hn|[Hd [Hh [Hl Hf]]]]].
+    - right. split; [exact Hi|]. unfold local_get. now rewrite Hn.
+    - left. split; [exact Hi|]. split; [exact Hd|]. split; [exact Hh|].
+      destruct (new_chunk_good H zcomp zdecomp z_roundtrip z_nonempty i (data_of i)
+                  (opt_converters (ls_uncompressed s)) (ls_skip_verify s) Hd (or_intror Hh)) as [c [E [D _]]].
+      exists c. split; [unfold local_get; now rewrite Hf, E|]. split; [exact D|exact Hl].
+  Qed.
+
+  (* whatever format the store keeps its chunks in (compressed like casync, or plain) and whether
+     or not it verifies on read, every request of a session is answered truthfully: the wire
+     always carries the COMPRESSED form of the chunk's data *)
+  Lemma session_over_local_store s data_of ids :
+    Forall (held s data_of) ids ->
+    Forall2 (answered (local_get H zdecomp s) data_of) ids (session (local_get H zdecomp s) ids).
+  Proof.
+    intros F. apply session_truthful. eapply Forall_impl; [|exact F]. intros i. apply held_servable.
   Qed.
 End ProtocolSessionProofs.
